@@ -142,6 +142,17 @@ def _account(ctx, chunks):
                     worst["oracle"] = max(worst["oracle"], e["err"])
     if nfit == 0:
         raise InfraError("c09 harness produced no fits")
+    fits = [(next((e for e in b if e["e"] == "Fit"), None), next((e["sig2"] for e in b if e["e"] == "Spectrum"), [])) for ev in chunks for b in tlc.split_blocks(ev)]
+    classes = dict(compared=sum(1 for f, s2 in fits if f and _ncmp(s2) >= 1), two_compared=sum(1 for f, s2 in fits if f and _ncmp(s2) >= 2),
+                   multi_component=sum(1 for f, s2 in fits if f and f["npc"] >= 2), different_widths=sum(1 for f, s2 in fits if f and f["diffw"]))
+    for sc in range(0, 6):
+        classes["scaling_%d" % sc] = sum(1 for f, s2 in fits if f and f["scaling"] == sc)
+    for nbk in (2, 3, 4):
+        classes["blocks_%d" % nbk] = sum(1 for f, s2 in fits if f and f["blocks"] == nbk)
+    ctx.steps["classes"] = classes
+    missing = [k for k, v in classes.items() if v == 0]
+    if missing:
+        raise InfraError("c09 recording does not exercise: %s (vacuous antecedents)" % missing)
     ctx.steps["worst_observed"] = {k: (round(v, 4) if isinstance(v, float) else v) for k, v in worst.items()}
     ctx.steps["models"] = dict(fitted=nfit, dropped_outside_quantifier=ndrop)
     return nfit, ndrop
